@@ -241,8 +241,9 @@ class DerivedLevel(Level):
             levels = sample[f]
             for j in range(window.width):
                 idx = i+(j-(window.width-1))*sustain_count
-                # A derived source factor has no level before its own start
-                if idx >= 0 and levels[idx] is not None:
+                # A derived source factor has no level before its own start; a
+                # sample converted from names has a level named "" there
+                if idx >= 0 and levels[idx] is not None and levels[idx].name != "":
                     args.append(levels[idx].name)
                 else:
                     args.append(None)
